@@ -312,7 +312,7 @@ def split_histories(ops, impl):
         if cur is None:
             continue
         cur.ops.append(o)
-        cur.obs.append(parse_obs(b) if b.startswith("ev ") else dict(raw=b, res=b, special=True))
+        cur.obs.append(parse_obs(b) if (b.startswith("ev ") and b != "ev res=hang") else dict(raw=b, res=b, special=True))
     return hs
 
 
